@@ -127,6 +127,25 @@ Theorem C02_foreign_store_converges : forall w sel ms op f og si o snap0,
 Proof. exact store_reaches_observer. Qed.
 Print Assumptions C02_foreign_store_converges.
 
+(* the database side of EXPUNGE / MOVE out / connector removal and of APPEND (the model's do_cmd uses exactly these
+   functions): what a newly opened session sees afterwards is what the emitted updates make of what it saw before *)
+Theorem C02_remove_matches_updates : forall w mb ms,
+  (N.to_nat mb < length (w_mbox w))%nat -> idl_nodup (rows_ids (mbox_of w mb)) ->
+  let '(w1, ups) := remove_rows w mb ms in
+  ups = map (UExpunge mb) ms /\
+  fresh_view w1 mb = fold_left (fun v u => view_apply mb u v) ups (fresh_view w mb).
+Proof. exact remove_rows_matches_updates. Qed.
+Print Assumptions C02_remove_matches_updates.
+
+Theorem C02_append_matches_update : forall w mb f og,
+  (N.to_nat mb < length (w_mbox w))%nat ->
+  has_entry (w_nextid w) (w_flags w) = false -> row_has (w_nextid w) (mbox_of w mb) = false ->
+  idl_all_lt (next_of w mb) (rows_ids (mbox_of w mb)) ->
+  same_view (fresh_view (append_db w mb f) mb)
+            (view_apply mb (UExists mb [(w_nextid w, next_of w mb, f)] og) (fresh_view w mb)).
+Proof. exact append_matches_update. Qed.
+Print Assumptions C02_append_matches_update.
+
 Example C02_store_hypotheses_hold :
   let h := [Cmd 0 (CSelect 0); Cmd 1 (CSelect 0); Cmd 1 (CAppend 0 [fl_deleted; 5]); Cmd 1 (CAppend 0 [fl_seen]);
             Conn (XNew 0 [7]); Cmd 1 (CStore [1]%nat FAdd [fl_deleted; 9] false); Cmd 1 CExpunge] in
